@@ -307,8 +307,15 @@ def render(p):
     o = "void obs(long long);\n"
     for s in st:
         o += "%s %s {\n" % ("union" if s.get("union") else "struct", s["name"])
-        for f in s["fields"]:
-            o += "\t" + ("_Alignas(%d) " % f["al"] if f.get("al") else "") + ctype(f["t"], st, f["n"]) + (" : %d" % f["bw"] if f["bw"] else "") + ";\n"
+        # "anon": [i, j): these members are declared inside an anonymous struct member; they are members of the containing
+        # struct all the same (6.7.2.1p13), so nothing changes for CSem - only where the compiler has to look them up
+        a0, a1 = s.get("anon", (-1, -1))
+        for i, f in enumerate(s["fields"]):
+            if i == a0:
+                o += "\tstruct {\n"
+            o += ("\t\t" if a0 <= i < a1 else "\t") + ("_Alignas(%d) " % f["al"] if f.get("al") else "") + ctype(f["t"], st, f["n"]) + (" : %d" % f["bw"] if f["bw"] else "") + ";\n"
+            if i == a1 - 1:
+                o += "\t};\n"
         o += "};\n"
     def plist(f):
         ps = [ctype(q["t"], st, q["n"]) for q in f["params"]]
